@@ -329,6 +329,7 @@ type env struct {
 	monitor   *fakeMonitor
 	defaultAS virtual.DefaultAttributesSetter
 	alloc     virtual.StatefulHandleAllocator
+	symlinks  virtual.SymlinkFactory
 }
 
 func comp(name string) path.Component { return path.MustNewComponent(name) }
@@ -393,6 +394,7 @@ func newEnv(cfg envCfg, store *fakeCAS) *env {
 		alloc.New(),
 		path.LocalFormat,
 	)
+	e.symlinks = symlinkFactory
 	characterDeviceFactory := virtual.NewHandleAllocatingCharacterDeviceFactory(virtual.BaseCharacterDeviceFactory, alloc.New())
 	e.bd = builder.NewVirtualBuildDirectory(e.root, e.df, store, symlinkFactory, characterDeviceFactory, alloc, e.defaultAS, e.clock)
 	if cfg.Monitor {
@@ -442,4 +444,25 @@ func (e *env) merge(ir builder.BuildDirectory, rootDigest digest.Digest) error {
 		mon = e.monitor
 	}
 	return ir.MergeDirectoryContents(e.ctx, e.errLog, rootDigest, mon)
+}
+
+// casFetcher builds the same lazily evaluated CAS directory that
+// MergeDirectoryContents() attaches, for grafting through CreateChildren().
+func (e *env) casFetcher(d digest.Digest) virtual.InitialContentsFetcher {
+	return virtual.NewCASInitialContentsFetcher(
+		e.ctx,
+		cas.NewDecomposedDirectoryWalker(e.df, d),
+		virtual.NewStatelessHandleAllocatingCASFileFactory(
+			virtual.NewBlobAccessCASFileFactory(e.ctx, e.store, e.errLog),
+			e.alloc.New(),
+		),
+		e.symlinks,
+		d.GetDigestFunction(),
+	)
+}
+
+func (e *env) digestOf(df digest.Function, data []byte) digest.Digest {
+	g := df.NewGenerator(int64(len(data)))
+	g.Write(data)
+	return g.Sum()
 }
